@@ -21,6 +21,7 @@
     {"name": "n1_cb",   "defs": ["NCERT=1", "WITH_CB=1"]},
     {"name": "n2_cb",   "defs": ["NCERT=2", "WITH_CB=1"]}
   ],
+  "solver": "cadical",
   "native_replay": true,
   "timeout": 300
 }
@@ -78,13 +79,18 @@ int32 memcmpct(const void *s1, const void *s2, size_t len)
 #define C04_ANON         g_ssl.sec.anon
 
 #define POSTS(P) \
-    P(no_callback_is_strict,          C04_NO_CALLBACK_IS_STRICT) \
-    P(callback_decides,               C04_CALLBACK_DECIDES) \
-    P(override_saw_the_alert,         C04_OVERRIDE_SAW_THE_ALERT) \
-    P(accept_leaves_no_alert,         C04_ACCEPT_LEAVES_NO_ALERT) \
-    P(reject_is_fatal,                C04_REJECT_IS_FATAL) \
-    P(anon_only_by_callback,          C04_ANON_ONLY_BY_CALLBACK) \
-    P(validator_given_session_data,   C04_VALIDATOR_GIVEN_SESSION_DATA)
+    P(no_callback_needs_validator_success,   C04_NOCB_NEEDS_VALIDATOR_SUCCESS) \
+    P(no_callback_needs_every_verdict_pass,  C04_NOCB_NEEDS_EVERY_VERDICT_PASS) \
+    P(no_callback_needs_trust_anchors,       C04_NOCB_NEEDS_TRUST_ANCHORS) \
+    P(no_callback_calls_nothing,             C04_NOCB_CALLS_NOTHING) \
+    P(callback_decides,                      C04_CALLBACK_DECIDES) \
+    P(override_of_validator_failure_saw_alert, C04_OVERRIDE_OF_VALIDATOR_FAILURE_SAW_ALERT) \
+    P(override_of_bad_verdict_saw_alert,     C04_OVERRIDE_OF_BAD_VERDICT_SAW_ALERT) \
+    P(override_of_no_trust_anchors_saw_alert, C04_OVERRIDE_OF_NO_TRUST_ANCHORS_SAW_ALERT) \
+    P(accept_leaves_no_alert,                C04_ACCEPT_LEAVES_NO_ALERT) \
+    P(reject_is_fatal,                       C04_REJECT_IS_FATAL) \
+    P(anon_only_by_callback,                 C04_ANON_ONLY_BY_CALLBACK) \
+    P(validator_given_session_data,          C04_VALIDATOR_GIVEN_SESSION_DATA)
 
 static int32_t matrixSslValidatePeerCerts(ssl_t *ssl, void *pkiData)
 __CPROVER_requires(ssl == &g_ssl && pkiData == NULL)
@@ -106,6 +112,7 @@ HARNESS_BEGIN
     int32 vr_ret;
     g_in = in;
     g_c0.next = (NCERT > 1) ? &g_c1 : NULL;
+    g_c1.next = NULL;
     g_c0.authFailFlags = in.flags0[0];
     g_c1.authFailFlags = in.flags0[1];
     g_ssl.sec.cert = &g_c0;
